@@ -24,4 +24,5 @@ def run(rep):
     pr.rule_parse_frame(rep, "C18.loop")
     pr.rule_glue(rep, "C18.glue")
     lr.rule_scanner(rep, "C18.line", "C18.scan")
+    lr.rule_token(rep, "C18.token")
     ms.rule_formatter(rep)
